@@ -60,6 +60,74 @@ pub open spec fn uniq_rows(seen: Set<ContextKey>, r: Seq<Context>) -> Seq<Contex
     else { seq![r[0]].add(uniq_rows(seen.insert(ctx_key(r[0])), tail(r))) }
 }
 
+// --merge / --group-by collect the BUILT rows
+pub open spec fn builds(r: Seq<Context>) -> Seq<JsonValue>
+    decreases r.len()
+{
+    if r.len() == 0 { Seq::empty() } else { seq![ctx_build(r[0])].add(builds(tail(r))) }
+}
+pub open spec fn merged_row(data: Seq<JsonValue>, r: Seq<Context>) -> Context { ctx_of_value(json_array(data.add(builds(r)))) }
+
+// --group-by g: groups in first-seen key order, each group in arrival order; rows whose key is not a string are dropped
+pub open spec fn group_key(g: Rc<dyn Get>, c: Context) -> Option<String> {
+    match g.get_spec(&c) { Some(JsonValue::String(s)) => Some(s), _ => None }
+}
+pub open spec fn has_group(gs: Seq<(String, Seq<JsonValue>)>, k: String) -> bool { exists|i: int| 0 <= i < gs.len() && gs[i].0 == k }
+pub open spec fn group_add(gs: Seq<(String, Seq<JsonValue>)>, k: String, v: JsonValue) -> Seq<(String, Seq<JsonValue>)> {
+    if has_group(gs, k) {
+        let i = choose|i: int| 0 <= i < gs.len() && gs[i].0 == k;
+        gs.update(i, (k, gs[i].1.push(v)))
+    } else {
+        gs.push((k, seq![v]))
+    }
+}
+pub open spec fn group_all(g: Rc<dyn Get>, gs: Seq<(String, Seq<JsonValue>)>, r: Seq<Context>) -> Seq<(String, Seq<JsonValue>)>
+    decreases r.len()
+{
+    if r.len() == 0 { gs } else {
+        match group_key(g, r[0]) {
+            Some(k) => group_all(g, group_add(gs, k, ctx_build(r[0])), tail(r)),
+            None => group_all(g, gs, tail(r)),
+        }
+    }
+}
+pub open spec fn group_members(gs: Seq<(String, Seq<JsonValue>)>) -> Seq<(String, JsonValue)> {
+    Seq::new(gs.len(), |i: int| (gs[i].0, json_array(gs[i].1)))
+}
+pub open spec fn grouped_row(g: Rc<dyn Get>, gs: Seq<(String, Seq<JsonValue>)>, r: Seq<Context>) -> Context {
+    ctx_of_value(json_object(group_members(group_all(g, gs, r))))
+}
+
+pub open spec fn groups_view(e: Seq<(String, Vec<JsonValue>)>) -> Seq<(String, Seq<JsonValue>)> { Seq::new(e.len(), |i: int| (e[i].0, e[i].1@)) }
+
+// IndexMap::entry(k).or_default().push(v) on the stored map is group_add on its view (keys are distinct)
+pub proof fn lemma_group_insert(e: Seq<(String, Vec<JsonValue>)>, e2: Seq<(String, Vec<JsonValue>)>, k: String, nv: Vec<JsonValue>, v: JsonValue)
+    requires
+        im_distinct(e),
+        e2 == im_insert(e, k, nv),
+        im_has(e, k) ==> nv@ == e[im_idx(e, k)].1@.push(v),
+        !im_has(e, k) ==> nv@ == seq![v],
+    ensures groups_view(e2) == group_add(groups_view(e), k, v),
+{
+    let gs = groups_view(e);
+    if im_has(e, k) {
+        let i = im_idx(e, k);
+        assert(gs[i].0 == k);
+        assert(has_group(gs, k));
+        let j = choose|j: int| 0 <= j < gs.len() && gs[j].0 == k;
+        assert(e[j].0 == k);
+        assert(i == j);
+        assert(groups_view(e2) =~= gs.update(j, (k, gs[j].1.push(v))));
+    } else {
+        if has_group(gs, k) {
+            let j = choose|j: int| 0 <= j < gs.len() && gs[j].0 == k;
+            assert(e[j].0 == k);
+            assert(false);
+        }
+        assert(groups_view(e2) =~= gs.push((k, seq![v])));
+    }
+}
+
 pub broadcast proof fn lemma_tail_cons(c: Context, r: Seq<Context>)
     ensures #[trigger] tail(seq![c].add(r)) =~= r, seq![c].add(r)[0] == c, seq![c].add(r).len() == r.len() + 1,
 {}
